@@ -64,8 +64,10 @@ def structures(n, ages):
             opts = [(-1, -1)]
             for a in elig[i]:
                 opts.append((a, -1))
+                opts.append((-1, a))  # which of the two parent columns holds the parent carries no meaning
             for a, b in itertools.combinations(elig[i], 2):
                 opts.append((a, b))
+                opts.append((b, a))
             parent_opts[i] = opts
         for hh in hh_strings(n):
             for m in matchings:
@@ -223,8 +225,17 @@ def arrays_from_df(df):
 
 
 def check_population(df, date):
-    res = env.simulate(df, date, targets=["fg_id", "bg_id", "eg_id", "ehe_id", "sn_id", "wthh_id"])
     a = arrays_from_df(df)
+    try:
+        res = env.simulate(df, date, targets=["fg_id", "bg_id", "eg_id", "ehe_id", "sn_id", "wthh_id"])
+    except Exception as e:  # noqa: BLE001
+        # no identifiers at all for a valid population: the units are not derived as prescribed
+        import traceback
+
+        tb = [f for f in traceback.extract_tb(e.__traceback__) if "/_gettsim/" in f.filename]
+        where = tb[-1].name if tb else "?"
+        return [core.Failure(f"raises:{type(e).__name__}:{where}", f"{date}: deriving the unit identifiers raises {type(e).__name__}: {e!s:.120} in {where} "
+                             f"(p_id={a['p_id']}, hh={a['hh_id']}, alter={a['alter']}, einst={a['einst']}, e1={a['e1']}, e2={a['e2']})")], a, {}
     code = {u: res[f"{u}_id"].tolist() for u in ("fg", "bg", "eg", "ehe", "sn")}
     diffs, ref = compare_units(a, list(range(len(df))), code, wthh=res["wthh_id"].tolist())
     # ids of different households never collide
@@ -268,7 +279,11 @@ def large_shard(desc):
         big = popgen.replicate(df, k, seed=desc["seed"] % 2**31)
         a = arrays_from_df(big)
         order = list(range(len(big)))
-        code = code_units(a, order)
+        try:
+            code = code_units(a, order)
+        except Exception as e:  # noqa: BLE001
+            return [core.Failure(f"raises:{type(e).__name__}", f"{date}: grouping functions raise {type(e).__name__}: {e!s:.100} on a table of {len(big)} rows",
+                                 popcheck.payload(big, date, kind="L"))]
         diffs, ref = compare_units(a, order, code)
         for u in ("fg", "bg"):
             if not U.refines(code[u], a["hh_id"]):
@@ -296,8 +311,8 @@ def run(tier, seed, t0):
     for n in (1, 2, 3):
         parts = 1 if n < 3 else 16
         descs += [{"n": n, "ages": ages6, "part": i, "nparts": parts, "seed": seed} for i in range(parts)]
-    # n = 4: complete in thorough, a seed-dependent 1/12 sample in quick
-    descs += [{"n": 4, "ages": ages4, "part": i, "nparts": 32, "seed": seed, "every": 1 if tier == "thorough" else 12} for i in range(32)]
+    # n = 4: complete in thorough, a seed-dependent 1/40 sample in quick (both parent-column placements are enumerated)
+    descs += [{"n": 4, "ages": ages4, "part": i, "nparts": 32, "seed": seed, "every": 1 if tier == "thorough" else 40} for i in range(32)]
     if tier == "thorough":
         descs += [{"n": 5, "ages": [10, 24, 45], "part": i, "nparts": 32, "seed": seed, "every": 40} for i in range(32)]
     extra = [("vf.checks.c12", "exhaustive_shard", descs)]
